@@ -106,17 +106,29 @@ func runC02(a *A) {
 				t.Args[1].Kind == "un" && t.Args[1].Name == "-" && isFieldOf(t.Args[1].Args[0], "window.Watermark", "maxOutOfOrderness")
 			src := ""
 			if ok {
-				x := t.Args[0]
-				switch {
-				case x.Kind == "param":
-					src = "the event time / the tick's now"
-				case isFieldOf(x, "window.Watermark", "maxEventTime"):
-					src = "maxEventTime"
-				case x.Kind == "call" && x.Name == "time.Now":
-					src = "now (idle-source branch)"
-				default:
-					ok = false
+				// the base may be chosen by a branch (`base := maxEventTime; if idle { base = now }`):
+				// every alternative must be one of the three
+				xs := []*Term{t.Args[0]}
+				if t.Args[0].Kind == "phi" && t.Args[0].Val != nil {
+					xs = nil
+					for _, l := range phiLeaves(t.Args[0].Val) {
+						xs = append(xs, TermOf(l, nil))
+					}
 				}
+				var srcs []string
+				for _, x := range xs {
+					switch {
+					case x.Kind == "param":
+						srcs = append(srcs, "the event time / the tick's now")
+					case isFieldOf(x, "window.Watermark", "maxEventTime"):
+						srcs = append(srcs, "maxEventTime")
+					case x.Kind == "call" && x.Name == "time.Now":
+						srcs = append(srcs, "now (idle-source branch)")
+					default:
+						ok = false
+					}
+				}
+				src = strings.Join(srcs, " or ")
 			}
 			a.Check(ok, fname(fn)+"#candidate", v.Pos(),
 				"candidate watermark = "+src+" - maxOutOfOrderness",
@@ -168,9 +180,10 @@ func runC02(a *A) {
 			if !ok {
 				continue
 			}
+			farFuture := a.MethodOpt("window", "Watermark", "IsFarFuture")
 			if guardedByValue(b, func(v ssa.Value) bool {
 				c, ok := v.(*ssa.Call)
-				return ok && timeMethod(&c.Call) == "After"
+				return ok && (timeMethod(&c.Call) == "After" || (farFuture != nil && c.Call.StaticCallee() == farFuture))
 			}, true) {
 				continue // the far-future return
 			}
@@ -237,6 +250,10 @@ func (a *A) storeOnlyIfGreater(fn *ssa.Function, st *ssa.Store, f *types.Var, ze
 		leaves[TermOf(l, nil).String()] = true
 	}
 	newT := TermOf(st.Val, nil).String()
+	leafVals := map[ssa.Value]bool{st.Val: true}
+	for _, l := range phiLeaves(st.Val) {
+		leafVals[l] = true
+	}
 	spec := OrdSpec{Roles: []string{"new", "old"}, Flags: []string{"zero:old"},
 		Role: func(t *Term) string {
 			if t.Kind == "field" && t.Field == f {
@@ -245,7 +262,9 @@ func (a *A) storeOnlyIfGreater(fn *ssa.Function, st *ssa.Store, f *types.Var, ze
 				}
 				return "old"
 			}
-			if t.String() == newT || leaves[t.String()] {
+			if t.String() == newT || leaves[t.String()] || (t.Val != nil && leafVals[t.Val]) {
+				// (by value as well: on a path the walker reads a merged operand inside the candidate as
+				// the operand that path took, so the text differs while the value is the same)
 				return "new"
 			}
 			return ""
@@ -323,18 +342,40 @@ func (a *A) ruleFutureGuard() {
 	// find the After(ceiling) comparison on the event-time parameter
 	var ceilT *Term
 	var ceilPos token.Pos
-	allInstrs(fn, func(in ssa.Instruction) {
-		c, ok := in.(*ssa.Call)
-		if !ok || timeMethod(&c.Call) != "After" {
-			return
-		}
-		x := TermOf(c.Call.Args[0], nil)
-		y := TermOf(c.Call.Args[1], nil)
-		if x.Kind == "param" && y.Kind == "call" && y.Name == "(time.Time).Add" && len(y.Args) == 2 && y.Args[0].Kind == "call" && y.Args[0].Name == "time.Now" {
-			ceilT = y
-			ceilPos = in.Pos()
-		}
-	})
+	scan := func(f *ssa.Function, fr *frame) {
+		allInstrs(f, func(in ssa.Instruction) {
+			c, ok := in.(*ssa.Call)
+			if !ok || timeMethod(&c.Call) != "After" {
+				return
+			}
+			x := TermOf(c.Call.Args[0], fr)
+			y := TermOf(c.Call.Args[1], fr)
+			if x.Kind == "param" && x.Fn == fn && y.Kind == "call" && y.Name == "(time.Time).Add" && len(y.Args) == 2 && y.Args[0].Kind == "call" && y.Args[0].Name == "time.Now" {
+				ceilT = y
+				ceilPos = in.Pos()
+			}
+		})
+	}
+	scan(fn, nil)
+	if ceilT == nil {
+		// the comparison may sit in a boolean method of the watermark that is given the event time
+		// (IsFarFuture): its terms are read in this function's context
+		allInstrs(fn, func(in ssa.Instruction) {
+			c, ok := in.(*ssa.Call)
+			if !ok || ceilT != nil || !isBool(c.Type()) {
+				return
+			}
+			callee := c.Call.StaticCallee()
+			if callee == nil || callee.Blocks == nil || callee.Pkg != fn.Pkg {
+				return
+			}
+			var args []*Term
+			for _, av := range c.Call.Args {
+				args = append(args, TermOf(av, nil))
+			}
+			scan(callee, &frame{fn: callee, args: args})
+		})
+	}
 	if ceilT == nil {
 		a.Bad(fname(fn)+"#future-ceiling", fn.Pos(), "no comparison eventTime.After(time.Now().Add(...)) found: a far-future timestamp would ratchet the watermark")
 		return
@@ -541,15 +582,47 @@ func (a *A) ruleLateUpdateIdentity() {
 			continue
 		}
 		for _, c := range calls {
-			arg := TermOf(c.(*ssa.Call).Call.Args[1], nil)
-			okArg := arg.Kind == "field" && arg.Field.Name() == "slot" && strings.Contains(arg.String(), "triggeredWindows")
-			okGuard := false
-			for _, g := range guardsOf(c.Block()) {
-				if call, ok := g.Cond.(*ssa.Call); ok && g.Sense {
-					if cal := call.Call.StaticCallee(); cal != nil && cal.Name() == "Contains" && TermOf(call.Call.Args[0], nil).String() == arg.String() {
-						okGuard = true
+			argV := c.(*ssa.Call).Call.Args[1]
+			arg := TermOf(argV, nil)
+			// the slot may be picked in a search loop and carried in a variable (`target = info.slot; break`):
+			// every non-nil way the value came about must be the slot of an entry whose Contains held
+			okArg, okGuard := true, true
+			nLeaves := 0
+			for _, lf := range phiLeafEdges(argV) {
+				if k, isK := lf.v.(*ssa.Const); isK && k.Value == nil {
+					continue // "not found": the handler returns before the call or the update finds nothing
+				}
+				nLeaves++
+				lt := TermOf(lf.v, nil)
+				if !(lt.Kind == "field" && lt.Field.Name() == "slot" && strings.Contains(lt.String(), "triggeredWindows")) {
+					okArg = false
+				}
+				gs := guardsOf(c.Block())
+				if lf.from != nil {
+					var into *ssa.BasicBlock
+					for _, sc := range lf.from.Succs {
+						into = sc
+					}
+					if len(lf.from.Succs) == 1 {
+						gs = append(gs, guardsAtEnd(lf.from, into)...)
+					} else {
+						gs = append(gs, guardsOf(lf.from)...)
 					}
 				}
+				g1 := false
+				for _, g := range gs {
+					if call, ok := g.Cond.(*ssa.Call); ok && g.Sense {
+						if cal := call.Call.StaticCallee(); cal != nil && cal.Name() == "Contains" && TermOf(call.Call.Args[0], nil).String() == lt.String() {
+							g1 = true
+						}
+					}
+				}
+				if !g1 {
+					okGuard = false
+				}
+			}
+			if nLeaves == 0 {
+				okArg = false
 			}
 			a.Check(okArg && okGuard, fname(h)+"#late-update-slot", c.Pos(), "the late update is computed for the slot of the fired-window entry that Contains the event",
 				"the late update is called with "+arg.String()+" (not the slot of the fired-window entry whose Contains selected the event): the re-delivery would carry another window_id")
